@@ -42,7 +42,9 @@ class BuildDirs:
     #     is also present in _removed_tree. This field is used to optimize the
     #     implementation of _handle_dir_exists, so that it doesn't have to walk
     #     all the way up to the root directory every time.
-    # Lock _lock - The lock guarding access to all of the other attributes.
+    # Lock _creation_lock - The lock returned by creation_lock().
+    # Lock _lock - The lock guarding access to all of the other attributes,
+    #     apart from _creation_lock.
     # set<str> _maybe_removed_dirs - The norm-cased filenames of directories
     #     that might be removed in the virtual state of the file system. To be
     #     sure, we need to check whether the directory is a key in
@@ -82,11 +84,25 @@ class BuildDirs:
         self._removed_dirs = set()
         self._exists_dirs = set()
         self._lock = threading.Lock()
+        self._creation_lock = threading.Lock()
 
         self._maybe_removed_dirs = set(
             [os.path.normcase(dir_) for dir_ in old_cache_dirs])
         self._removed_files = set(
             [os.path.normcase(filename) for filename in old_cache_files])
+
+    def creation_lock(self):
+        """Return the lock to hold while creating and registering directories.
+
+        A thread must hold this lock from the time it determines which
+        parent directories of a file it needs to create until it has
+        called ``started_building_file`` for the file. Otherwise,
+        another thread could observe a directory after it was created
+        but before it was registered, in which case no thread would
+        register the directory as created. This must be acquired before
+        any of the other locks.
+        """
+        return self._creation_lock
 
     def is_removed_norm_case(self, norm_cased_dir):
         """Return whether the specified directory was removed.
@@ -161,7 +177,11 @@ class BuildDirs:
         """Handle an exception building the specified file."""
         prev_parent = os.path.normcase(filename)
         parent = os.path.dirname(prev_parent)
-        with self._lock:
+
+        # Hold _creation_lock so that we don't release the reservations while
+        # another thread is between deciding which directories it needs to
+        # create and calling started_building_file
+        with self._creation_lock, self._lock:
             while parent != prev_parent:
                 count = self._build_dir_counts[parent] - 1
                 if count > 0:
